@@ -1015,6 +1015,15 @@ def _ground_instances(hyps, old, new, x, sks):
     return out
 
 
+FACT_NAMES = {      # obligation names of the facts, in the order op_facts (for append: seq_lemmas) lists them
+    "popleft": ["length", "elements-move-down-by-one"],
+    "extend": ["length", "old-part-kept", "new-part-follows"],
+    "clear": ["length"],
+    "append": ["length", "last-is-the-new-element", "old-part-kept", "first-index-of-every-element"],
+    "rotate": ["length", "head-to-back.others-move-down.first-indices-move-down", "first-index-of-head-when-distinct"],
+    "remove": ["length", "before-the-removed-position-kept", "after-it-move-down-by-one", "first-indices-of-the-others",
+               "removed-element-absent-when-distinct"],
+}
 LEMMA_OPS = ("popleft", "extend", "clear", "append", "rotate", "remove")
 
 
@@ -1093,7 +1102,8 @@ def seq_lemmas(wrong=None):
                         subs.append((hh + _ground_instances(hh, s, new, x, sks), g))
                     if not sks:
                         done.append(z3.Implies(z3.And(extra), g) if extra else g)     # conjuncts proved before: usable
-                out.append((f"op.{meth}[{tag}].{k}", subs, None, str(f).replace("\n", " ")[:160]))
+                nm = FACT_NAMES[meth][k] if wrong is None and k < len(FACT_NAMES[meth]) else str(k)
+                out.append((f"op.{meth}[{tag}].{nm}", subs, None, str(f).replace("\n", " ")[:160]))
                 if cond is None:
                     proved.append(f)
     return out
